@@ -4,7 +4,7 @@ from vf.ch import Ob
 
 ASSUMPTIONS = PRE_ASSUME
 OUTSIDE = ["file-system side effects (parsetab.py rewriting, dump files) and cross-process behaviour other than table generation: not expressible as a solver query over the code"]
-KINDS = ["line_dash", "line_hash", "line_block", "trail_dash", "trail_block", "multi_block", "multi_block_banner", "trail_dash_glued"]
+KINDS = ["line_dash", "line_hash", "line_block", "trail_dash", "trail_block", "multi_block", "multi_block_banner", "trail_dash_glued", "line_block_trailing_blank"]
 
 
 def obligations(tier):
